@@ -110,8 +110,8 @@ int zzJacobi(const word a[], size_t n, const word b[], size_t m, void* stack)
 	register size_t s;
 	// переменные в stack
 	word* u = (word*)stack;
-	word* v = u + n;
-	stack = v + m;
+	word* v = u + MAX2(n, m);
+	stack = v + MAX2(n, m);
 	// pre
 	ASSERT(wwIsValid(a, n));
 	ASSERT(zzIsOdd(b, m));
@@ -157,7 +157,7 @@ int zzJacobi(const word a[], size_t n, const word b[], size_t m, void* stack)
 
 size_t zzJacobi_deep(size_t n, size_t m)
 {
-	return O_OF_W(n + m) + 
+	return O_OF_W(2 * MAX2(n, m)) + 
 		utilMax(2, 
 			zzMod_deep(n, m), 
 			zzMod_deep(m, n));
